@@ -73,6 +73,7 @@ def run(F, chk):
                 rb.ok(key, b.where(bi), why)
             else:
                 rb.info(key, b.where(bi), "not decided (length established by nom take(n)/the caller): " + why)
+    pipe_close_rule(F, chk)
     # ---------------- R-C18-d / e ---------------------------------------------------
     rd = chk.rule("R-C18-d", "T3", "expect phase: Upgrade only on the Ok edge of parse_v2_header", floor=1)
     re_ = chk.rule("R-C18-e", "T12", "the parser's unconsumed remainder is not dropped on Upgrade", floor=1)
@@ -119,3 +120,128 @@ def run(F, chk):
             re_.ok(key, b.where(bi), "the remainder flows into state / a non-logging call")
         else:
             re_.violation(key, b.where(bi), "the remainder of parse_v2_header is used for logging only: payload bytes read together with the header (staged windows 28/52/232 over-read when the header carries TLVs) are lost on Upgrade")
+
+
+def pipe_close_rule(F, chk):
+    """R-C18-f: Pipe::check_connections decides whether a half-closed relay may be torn down. Necessary condition of
+    `end-of-stream is passed on only after all pending bytes were delivered`: (1) the two in-flight summaries read the
+    buffered bytes, the readiness and the splice backlog of their direction; (2) the per-(frontend, backend) status arms
+    consult nothing but those summaries (no private notion of `in flight`); (3) whenever the receiving side of a direction
+    can still be written (status Normal or WriteOpen) while the producing side is finished (WriteOpen or Closed), the arm
+    depends on that direction's summary or is constantly `keep`."""
+    r = chk.rule("R-C18-f", "T7+T12", "a half-closed pipe is kept while bytes are pending toward a writable side", floor=10)
+    cands = [p for p in F.paths() if p.startswith("sozu_lib::protocol::pipe::Pipe") and p.endswith("::check_connections")]
+    if not r.require(cands, "Pipe::check_connections not found"):
+        return
+    b = F.body(cands[0])
+    r.fn(b.path)
+    CS = "sozu_lib::protocol::pipe::ConnectionStatus"
+    dv = F.variant_discr(CS)
+    names = {"request_is_inflight": set(b.named_local("request_is_inflight")), "response_is_inflight": set(b.named_local("response_is_inflight"))}
+    if not r.require(all(names.values()), "check_connections: request_is_inflight / response_is_inflight locals not found"):
+        return
+    # (1) definitions: the blocks that lead to an assignment of the summary and not to one of the summary computed before it
+    def def_blocks(nm):
+        return {d[0] for l in names[nm] for d in b.defs().get(l, [])}
+    def backward(targets):
+        seen, todo = set(targets), list(targets)
+        while todo:
+            x = todo.pop()
+            for p_ in b.pred()[x]:
+                if p_ not in seen and p_ in live:
+                    seen.add(p_); todo.append(p_)
+        return seen
+    live = set(b.reachable())
+    order = sorted(names, key=lambda n: min(def_blocks(n) or [10**9]))
+    def back_region(nm):
+        reg = backward(def_blocks(nm) & live)
+        i = order.index(nm)
+        for earlier in order[:i]:
+            reg -= backward(def_blocks(earlier) & live)
+        return reg
+    for nm, buf, ready, splice in (("request_is_inflight", "frontend_buffer", "frontend_readiness", "splice_in_pending"),
+                                   ("response_is_inflight", "backend_buffer", "backend_readiness", "splice_out_pending")):
+        flds, callees = set(), set()
+        region = back_region(nm)
+        for bi in sorted(region):
+            for s2 in b.blocks[bi]["s"]:
+                rv = s2.get("rv")
+                if rv and rv["k"] in ("ref", "use"):
+                    pl = rv.get("pl") or op_place(rv.get("a", {}))
+                    if pl is not None:
+                        flds |= {f for _, _, f in proj_fields(pl)}
+            t = b.blocks[bi]["t"]
+            if t["k"] == "call":
+                callees.add(callee_of(t).split("::")[-1])
+        ok = buf in flds and ready in flds and splice in callees and "available_data" in callees
+        key = "%s reads buffer+readiness+splice" % nm
+        if ok:
+            r.ok(key, b.where(), "%s, %s.event, %s()" % (buf, ready, splice), nontrivial=False)
+        else:
+            r.violation(key, b.where(), "%s no longer accounts for %s" % (nm, [x for x, present in ((buf, buf in flds), (ready, ready in flds), (splice, splice in callees)) if not present]))
+    # arms
+    first = None
+    for bi in sorted(b.reachable()):
+        t = b.blocks[bi]["t"]
+        if t["k"] == "switch":
+            l = op_local(t["op"])
+            d = b.single_def(l) if l is not None else None
+            if d and d[2] == "assign" and d[3]["k"] == "discr" and d[3]["adt"] == CS:
+                first = (bi, t)
+                break
+    if not r.require(first, "check_connections: no switch on ConnectionStatus"):
+        return
+    inv = {v: k for k, v in dv.items()}
+    for v1, t1 in first[1]["ts"]:
+        fs = inv[int(v1)]
+        t2 = b.blocks[t1]["t"]
+        if t2["k"] != "switch":
+            r.broke("unexpected shape of the status match (frontend %s)" % fs)
+            continue
+        for v2, arm in t2["ts"]:
+            bs = inv[int(v2)]
+            region = b.reach_from([arm])
+            reads, consts, selfreads = set(), set(), []
+            for bi in region:
+                for s2 in b.blocks[bi]["s"]:
+                    rv = s2.get("rv")
+                    if not rv:
+                        continue
+                    ops = [rv.get("a"), rv.get("b")] + rv.get("ops", [])
+                    for o in ops:
+                        if not o:
+                            continue
+                        pl = op_place(o)
+                        if pl is None:
+                            if s2.get("lhs") == 0 and op_const(o) is not None:
+                                consts.add(op_const(o))
+                            continue
+                        for nm, ls in names.items():
+                            if pl_local(pl) in ls:
+                                reads.add(nm)
+                        if pl_local(pl) == 1 or proj_fields(pl):
+                            selfreads.append(bi)
+                    if rv["k"] in ("ref", "raw") and (pl_local(rv["pl"]) == 1):
+                        selfreads.append(bi)
+                t = b.blocks[bi]["t"]
+                if t["k"] == "switch":
+                    l = op_local(t["op"])
+                    for nm, ls in names.items():
+                        if l in ls or (l is not None and b.slice_back([l])["locals"] & ls):
+                            reads.add(nm)
+                if t["k"] == "call":
+                    selfreads.append(bi)
+            key = "arm (%s, %s)" % (fs, bs)
+            if selfreads:
+                r.violation(key + "|private in-flight notion", b.where(selfreads[0]), "the (%s, %s) arm evaluates session state of its own instead of the request/response in-flight summaries: bytes already buffered toward the peer are not counted and the relay is torn down before they are delivered" % (fs, bs))
+                continue
+            need = []
+            if fs in ("Normal", "WriteOpen") and bs in ("WriteOpen", "Closed"):
+                need.append("response_is_inflight")
+            if bs in ("Normal", "WriteOpen") and fs in ("WriteOpen", "Closed"):
+                need.append("request_is_inflight")
+            missing = [n for n in need if n not in reads and consts != {1}]
+            if missing:
+                r.violation(key, b.where(arm), "the (%s, %s) arm can report `close` without consulting %s" % (fs, bs, missing))
+            else:
+                r.ok(key, b.where(arm), "reads %s%s" % (sorted(reads), " const %s" % sorted(consts) if consts else ""), nontrivial=bool(need))
